@@ -229,13 +229,25 @@ fn check_program(ws: &mut VirtualWorkspace, ws2: &mut VirtualWorkspace, prog: &B
             match references_at(ws, fid, q) {
                 None => out.push(Viol { sig: "references-none".into(), what: format!("references at offset {} of `{}` returned nothing", q, text.trim_end()) }),
                 Some(locs) => {
-                    let got: BTreeSet<u32> = locs.iter().map(|l| l.0).collect();
-                    let bad_len = locs.iter().any(|l| expected.contains(&l.0) && l.1 - l.0 != len);
-                    if got != expected || bad_len {
+                    // locations that are not a name token of the declaration: when all of them are member targets of
+                    // `t.x = <this value>` they are what enqueue_value_alias_references adds (the known alias finding)
+                    let others: Vec<&(u32, u32)> = locs.iter().filter(|l| !(expected.contains(&l.0) && l.1 - l.0 == len)).collect();
+                    let alias_locs = !others.is_empty()
+                        && others.iter().all(|l| pr.alias_targets.iter().any(|(t, u)| *t == l.0 && expected.contains(u)));
+                    let got: BTreeSet<u32> = if alias_locs {
+                        locs.iter().filter(|l| expected.contains(&l.0) && l.1 - l.0 == len).map(|l| l.0).collect()
+                    } else {
+                        locs.iter().map(|l| l.0).collect()
+                    };
+                    let bad_len = !alias_locs && locs.iter().any(|l| expected.contains(&l.0) && l.1 - l.0 != len);
+                    if got != expected || bad_len || alias_locs {
                         let extra: Vec<u32> = got.difference(&expected).copied().collect();
                         let missing: Vec<u32> = expected.difference(&got).copied().collect();
                         // which other declaration do the extra / all locations belong to?
-                        let sig = if missing.is_empty() && !extra.is_empty() {
+                        let alias_only = alias_locs && missing.is_empty() && extra.is_empty();
+                        let sig = if alias_only {
+                            "references-follow-value-alias-into-member"
+                        } else if missing.is_empty() && !extra.is_empty() {
                             "references-include-other-tokens"
                         } else if !missing.is_empty() && got.iter().all(|g| !expected.contains(g)) && !got.is_empty() {
                             "references-of-another-declaration"
@@ -252,7 +264,7 @@ fn check_program(ws: &mut VirtualWorkspace, ws2: &mut VirtualWorkspace, prog: &B
                                 "references at offset {} (declaration at {}) = {:?} but the declaration and its uses are {:?} in `{}`",
                                 q,
                                 d.pos,
-                                got,
+                                locs,
                                 expected,
                                 text.trim_end()
                             ),
@@ -348,10 +360,10 @@ fn corr_line(ws: &mut VirtualWorkspace, prog: &Block) -> Value {
             continue;
         }
         let id = LuaDeclId::new(fid, TextSize::from(d.pos));
-        let cells: Vec<u32> = db
+        let cells: Vec<(u32, u32)> = db
             .get_reference_index()
             .get_decl_references(&fid, &id)
-            .map(|r| r.cells.iter().map(|c| u32::from(c.range.start())).collect())
+            .map(|r| r.cells.iter().map(|c| (u32::from(c.range.start()), u32::from(c.range.end()))).collect())
             .unwrap_or_default();
         let edits = rename_at(ws, fid, d.pos, &fresh).map(|es| es.iter().map(|e| json!([e.0, e.1, e.2])).collect::<Vec<_>>());
         decls.push(json!({"pos": d.pos, "name": d.name, "cells": cells, "rename": edits}));
